@@ -64,6 +64,8 @@ type e2eScenario struct {
 	Out       outSc    `json:"out"`
 	Shared    bool     `json:"shared"` // use the process-wide client for this configuration (C13)
 	Echo      bool     `json:"echo"`   // bidi: the handler echoes; the client sends and receives concurrently
+	Peer      string   `json:"peer"`   // "server": the real client talks to the reference codec's conformant server
+	Choices   *refcodec.Choices `json:"choices"`
 }
 
 func init() { families["e2e"] = runE2E }
@@ -455,7 +457,11 @@ func runE2E(raw json.RawMessage, seed int64, rec *Rec) {
 	rec.Add(E("reset", "tid", sc.Tid, "sc", scm))
 
 	tap := &Tap{}
-	h := tapped(e2eHandler(&sc), tap)
+	var inner http.Handler = e2eHandler(&sc)
+	if sc.Peer == "server" {
+		inner = peerServer(&sc, st)
+	}
+	h := tapped(inner, tap)
 	var httpClient connect.HTTPClient
 	url := "http://verif.test" + e2eProc
 	if sc.Transport == "loop" {
@@ -748,4 +754,119 @@ func sharedClient(sc *e2eScenario) *connect.Client[BV, BV] {
 	c := connect.NewClient[BV, BV](&memTransport{h: sharedDispatch, major: sc.HTTP}, "http://verif.test"+e2eProc, e2eClientOpts(sc)...)
 	actual, _ := sharedClients.LoadOrStore(key, c)
 	return actual.(*connect.Client[BV, BV])
+}
+
+// ---- a conformant foreign server built on the reference codec (C05, converse direction) ----------------
+
+func peerServer(sc *e2eScenario, st *e2eState) http.Handler {
+	return http.HandlerFunc(func(w http.ResponseWriter, r *http.Request) {
+		unary := sc.Kind == "unary" && sc.Proto == "connect"
+		reqCT := r.Header.Get("Content-Type")
+		enc := r.Header.Get(encodingHeader(sc.Proto, unary))
+		have := map[string]bool{"gzip": true}
+		for _, n := range sc.Hpools {
+			have[n] = true
+		}
+		choices := refcodec.Choices{}
+		if sc.Choices != nil {
+			choices = *sc.Choices
+		}
+		write := func(app refcodec.AppResponse) {
+			status, hdr, body, trl := refcodec.EncodeResponse(sc.Proto, unary, reqCT, app, choices)
+			names := append([]string{}, sc.Hpools...)
+			accept := "gzip"
+			for _, n := range names {
+				if n != "gzip" {
+					accept = n + "," + accept
+				}
+			}
+			hdr.Set(acceptEncodingHeader(sc.Proto, unary), accept)
+			for k, v := range hdr {
+				w.Header()[k] = v
+			}
+			for k, v := range trl {
+				for _, x := range v {
+					w.Header().Add(http.TrailerPrefix+k, x)
+				}
+			}
+			w.WriteHeader(status)
+			_, _ = w.Write(body)
+		}
+		if enc != "" && enc != "identity" && !have[enc] {
+			_, _ = io.Copy(io.Discard, r.Body)
+			write(refcodec.AppResponse{Err: &refcodec.RErr{Code: 12, Message: "unknown compression"}})
+			return
+		}
+		// the response algorithm: the request's, else the client's first choice this server has
+		choices.Encoding = ""
+		if enc != "" && enc != "identity" {
+			choices.Encoding = enc
+		} else {
+			for _, n := range strings.FieldsFunc(r.Header.Get(acceptEncodingHeader(sc.Proto, unary)), func(c rune) bool { return c == ',' || c == ' ' }) {
+				if have[n] {
+					choices.Encoding = n
+					break
+				}
+			}
+		}
+		raw, _ := io.ReadAll(r.Body)
+		var ids []int
+		decode := func(flag byte, p []byte) {
+			if flag&1 == 1 {
+				p, _ = refcodec.Decompress(enc, p)
+			}
+			if v, ok := decodeMsg(sc.Codec, p); ok {
+				ids = append(ids, st.table.ID(v))
+			} else {
+				ids = append(ids, -1)
+			}
+		}
+		if unary {
+			f := byte(0)
+			if enc != "" && enc != "identity" {
+				f = 1
+			}
+			decode(f, raw)
+		} else {
+			frames, _ := refcodec.ParseEnvelopes(raw)
+			for _, f := range frames {
+				decode(f.Flag, f.Payload)
+			}
+		}
+		st.sawRequest(r.Header, connect.Spec{}, ids...)
+		app := refcodec.AppResponse{Header: http.Header{}, Trailer: http.Header{}, ErrMeta: http.Header{}}
+		streamy := sc.Kind == "server" || sc.Kind == "bidi"
+		failing := sc.Out.Kind != "ok"
+		if !failing || streamy {
+			addAll(app.Header, sc.RespHdr)
+			addAll(app.Trailer, sc.RespTrl)
+		}
+		n := len(sc.Resp)
+		if failing {
+			if streamy && sc.Out.After < n {
+				n = sc.Out.After
+			} else if !streamy {
+				n = 0
+			}
+		}
+		for i := 0; i < n; i++ {
+			app.Msgs = append(app.Msgs, encodeBV(sc.Codec, st.payload(sc.Resp[i]).Value))
+		}
+		if failing {
+			e := &refcodec.RErr{Code: sc.Out.Code, Message: msgClasses[sc.Out.Msg]}
+			if sc.Out.Kind == "plain" {
+				e.Code = 2
+			}
+			for i := 1; i <= sc.Out.Ndet && sc.Out.Kind != "plain"; i++ {
+				e.Details = append(e.Details, refcodec.Any{TypeURL: "type.googleapis.com/google.protobuf.StringValue",
+					Value: refcodec.WrapBytes([]byte(detailText(i)))})
+			}
+			if sc.Out.Kind == "ctxwrap" {
+				e.Message += ": context deadline exceeded"
+			}
+			addAll(app.ErrMeta, sc.Out.Meta)
+			app.Err = e
+		}
+		write(app)
+	})
 }
